@@ -361,6 +361,7 @@ func boundaryCases() []boundaryCase {
 	}
 	cs = append(cs, boundaryCase{"client-direct-mtu-omitted", "socks5", false, func(w *world) { w.clients[0].mtu = nil }, false})
 	cs = append(cs, boundaryCase{"client-direct-mtu=-1", "socks5", false, func(w *world) { w.clients[0].mtu = intp(-1) }, false})
+	cs = append(cs, resolverRouteCases()...)
 	// two holders of one name, each covering a single network: all ordered pairs of {TCP-only client,
 	// UDP-only client, TCP-only group, UDP-only group}; refused whatever the networks (service.go:
 	// client names unique among clients; group names unique among clients and groups). Control rows:
@@ -611,6 +612,93 @@ func TestBoundariesExhaustive(t *testing.T) {
 			failures = append(failures[:10], fmt.Sprintf("... and %d more", len(failures)-10))
 		}
 		t.Fatalf("VERIF-VIOLATION\n%s", strings.Join(failures, "\n"))
+	}
+}
+
+// resolverRouteCases: every criteria kind that needs name resolution, alone on a route, x {no dns
+// section, plain resolver, system resolver} x disableNameResolutionForIPRules {unset, false, true}.
+// Rule (router/route.go): with no resolver configured, resolved-IP expectations on matched domains
+// are always refused, destination prefix criteria are refused unless the flag is true.
+func resolverRouteCases() []boundaryCase {
+	var cs []boundaryCase
+	for _, kind := range []string{"toPrefixes", "toPrefixSets", "toMatchedDomainExpectedPrefixes", "toMatchedDomainExpectedPrefixSets"} {
+		for _, dns := range []string{"none", "plain", "system"} {
+			for _, dis := range []string{"unset", "false", "true"} {
+				expected := strings.HasPrefix(kind, "toMatched")
+				accept := dns != "none" || (!expected && dis == "true")
+				cs = append(cs, boundaryCase{fmt.Sprintf("resolver-needed/%s/dns=%s/disableNameResolutionForIPRules=%s", kind, dns, dis), "socks5", false, func(w *world) {
+					w.target = "echo.test:@@ECHO@@"
+					r := &route{name: "needs-names", client: "d0", fromServers: []string{"s0"}, f: fields{}, extra: map[string]any{}}
+					switch kind {
+					case "toPrefixes", "toMatchedDomainExpectedPrefixes":
+						r.extra[kind] = []string{"127.0.0.0/8"}
+					default:
+						w.prefixSets = []*setCfg{{name: "ps0", file: "ps0.txt"}}
+						w.files["ps0.txt"] = "127.0.0.0/8\n"
+						r.extra[kind] = []string{"ps0"}
+					}
+					if expected {
+						r.extra["toDomains"] = []string{"echo.test"}
+					}
+					switch dis {
+					case "false":
+						r.f["disableNameResolutionForIPRules"] = &dfield{Mode: mEmpty}
+					case "true":
+						r.f["disableNameResolutionForIPRules"] = &dfield{Mode: mValue, Val: true}
+					}
+					switch dns {
+					case "plain":
+						w.dns = []*res{{name: "r0", addrPort: "127.0.0.1:@@DNS@@", tcpC: "d0", udpC: "d0", f: fields{}}}
+					case "system":
+						w.dns = []*res{{name: "r0", system: true}}
+					}
+					w.routes = append(w.routes, r)
+				}, accept})
+			}
+		}
+	}
+	return cs
+}
+
+var recResolverRoutes = ev.New("C18", "resolver-routes",
+	"enumeration: one route carrying exactly one criteria kind that needs name resolution (toPrefixes, toPrefixSets, toMatchedDomainExpectedPrefixes, "+
+		"toMatchedDomainExpectedPrefixSets) x dns section {absent, plain resolver, system resolver} x disableNameResolutionForIPRules {unset, false, true}; "+
+		"refused exactly when no resolver is configured and the kind needs one; every accepted combination is started and driven with TCP and UDP requests for "+
+		"a domain target (and the payload-less / scanner probes). Non-trivial: refused as the rule says, or accepted and exercised.").
+	Require("refused-at-load", "exercised", "dns=none+accepted")
+
+func TestResolverRoutes(t *testing.T) {
+	recResolverRoutes.Exhaustive(true)
+	t.Cleanup(stopPlanServer)
+	for _, bc := range resolverRouteCases() {
+		w := baseWorld(bc.proto, bc.legacy)
+		w.servers[0].udp[0].f["natTimeout"] = &dfield{Mode: mValue, Val: "5s"}
+		bc.mut(w)
+		if vs := w.validate(); (len(vs) == 0) != bc.accept {
+			t.Fatalf("harness error: table says accept=%v for %s, validator says %v", bc.accept, bc.name, vs)
+		}
+		text := w.emit(-1, false)
+		l := loadText(text, w.files, w.nports, false)
+		refused := l.err
+		l.close()
+		switch {
+		case bc.accept && refused != nil:
+			t.Fatalf("VERIF-VIOLATION SIG=C18/valid-config-refused %s: %v\n%s", bc.name, refused, text)
+		case !bc.accept && refused == nil:
+			t.Fatalf("VERIF-VIOLATION SIG=C18/accepted-with-violation/missing-resolver %s: the route needs name resolution and no resolver is configured\n%s", bc.name, text)
+		case !bc.accept:
+			recResolverRoutes.Case(bc.name, true, "refused-at-load")
+			continue
+		}
+		kr := false
+		ex, ls := runAndJudge(tfatal{t}, recResolverRoutes, w.plan(bc.name, text, 7), &kr)
+		if ex {
+			ls = append(ls, "exercised")
+			if strings.Contains(bc.name, "dns=none") {
+				ls = append(ls, "dns=none+accepted")
+			}
+		}
+		recResolverRoutes.Case(bc.name, ex, ls...)
 	}
 }
 
